@@ -1167,7 +1167,7 @@ Qed.
 Definition add_fits (o : obj) (a : assoc) (k : dkind) (v : option vals) : Prop :=
   forall vv, v = Some vv -> text_fits o k a vv.
 
-Lemma add_data_wf o id a k v : wf o -> (ok o = OPoints -> a <> ACell) -> add_fits o a k v -> wf (state_of (add_data o id a k v)).
+Lemma add_data_wf fl o id a k v : wf o -> (ok o = OPoints -> a <> ACell) -> add_fits o a k v -> wf (state_of (add_data fl o id a k v)).
 Proof.
   intros (Wc & Wk & Wp) Ha HF. unfold add_data.
   assert (G : forall nk, kid_ok o nk -> kassoc nk = a -> wf (set_kids o (kids o ++ [nk]))).
@@ -1181,16 +1181,27 @@ Proof.
       unfold kid_ok. simpl. destruct a; auto; simpl in F, Hfit.
       * (eapply format_length_ok_length; [|exact Hfit|exact F]; discriminate).
       * (eapply format_length_ok_length; [|exact Hfit|exact F]; discriminate).
-    + apply G; [|reflexivity]. unfold kid_ok. simpl. auto.
+    + destruct (f_add_rollback fl); simpl; [exact (conj Wc (conj Wk Wp))|].
+      apply G; [|reflexivity]. unfold kid_ok. simpl. auto.
   - simpl. apply G; [|reflexivity]. unfold kid_ok. simpl. auto.
 Qed.
 
-Lemma add_data_failed o id a k v e o' : add_data o id a k v = Failed e o' ->
-  ok o' = ok o /\ verts o' = verts o /\ cells o' = cells o /\ exists g, kids o' = kids o ++ [g] /\ kvals g = None.
+Lemma add_data_failed fl o id a k v e o' : add_data fl o id a k v = Failed e o' ->
+  ok o' = ok o /\ verts o' = verts o /\ cells o' = cells o /\
+  (kids o' = kids o \/ exists g, kids o' = kids o ++ [g] /\ kvals g = None /\ kkind g = k).
 Proof.
   unfold add_data. destruct v as [v|]; [|discriminate].
-  destruct (format_length _ _ _ v); [discriminate|]. intros H; injection H as _ <-. simpl.
-  repeat split; auto. eexists; split; reflexivity.
+  destruct (format_length _ _ _ v); [discriminate|].
+  destruct (f_add_rollback fl); intros H; injection H as _ <-; simpl.
+  - repeat split; auto.
+  - repeat split; auto. right. eexists; repeat split; reflexivity.
+Qed.
+
+(* with the roll-back a refused add_data leaves nothing behind *)
+Lemma add_data_failed_rollback fl o id a k v e o' : f_add_rollback fl = true -> add_data fl o id a k v = Failed e o' -> o' = o.
+Proof.
+  intros R. unfold add_data. destruct v as [v|]; [|discriminate].
+  destruct (format_length _ _ _ v); [discriminate|]. rewrite R. intros H; injection H as _ <-. reflexivity.
 Qed.
 
 (* ================================================================== re-open *)
@@ -1251,8 +1262,9 @@ Proof.
     + apply remove_cells_failed in H; auto; [subst; apply unchanged_refl|apply wf_kids_len_c; exact W].
     + apply remove_cells_failed in H; auto; [subst; apply unchanged_refl|apply wf_kids_len_c; exact W].
   - intros H; injection H as H. apply set_values_failed in H. subst. apply unchanged_refl.
-  - assert (G : Some (add_data o id a k v) = Some (Failed e o') -> unchanged_or_stub o o').
-    { intros E; injection E as E. apply add_data_failed in E as (H0 & H1 & H2 & H3). unfold unchanged_or_stub. auto. }
+  - assert (G : Some (add_data fl o id a k v) = Some (Failed e o') -> unchanged_or_stub o o').
+    { intros E; injection E as E. apply add_data_failed in E as (H0 & H1 & H2 & [H3|[g (H3 & H4 & _)]]); unfold unchanged_or_stub;
+        (split; [exact H0|split; [exact H1|split; [exact H2|]]]); [left; exact H3|right; exists g; auto]. }
     destruct (ok o); destruct a; intros H; try discriminate; apply G; exact H.
   - intros H; injection H as H. apply masked_copy_failed in H. subst. apply unchanged_refl.
   - destruct (reopen o order); discriminate.
@@ -1286,8 +1298,8 @@ Proof.
       * intros Hp. congruence.
   - intros H; injection H as H. eapply set_values_wf; eauto.
   - intros H.
-    assert (G : Some (add_data o id a k v) = Some (Done o') -> (ok o = OPoints -> a <> ACell) -> wf o').
-    { intros E Ha. injection E as E. pose proof (add_data_wf o id a k v W Ha HS) as X. rewrite E in X. exact X. }
+    assert (G : Some (add_data fl o id a k v) = Some (Done o') -> (ok o = OPoints -> a <> ACell) -> wf o').
+    { intros E Ha. injection E as E. pose proof (add_data_wf fl o id a k v W Ha HS) as X. rewrite E in X. exact X. }
     destruct (ok o) eqn:Ek; destruct a; try discriminate; apply G; auto; intros; discriminate.
   - intros H; injection H as H. destruct HS as [H1 H2]. eapply selection_wf; [exact W|]. eapply masked_copy_done; eauto.
   - destruct (reopen o order) as [o1|] eqn:R; [|discriminate]. simpl. intros H; injection H as <-.
@@ -1328,8 +1340,8 @@ Proof.
         apply (f_equal (@length kid)) in Hg. rewrite app_length in Hg. simpl in Hg. lia.
     + simpl in S. injection S as S. apply set_values_failed in S. subst. exact W.
     + simpl in S.
-      assert (G : Some (add_data o id a k v) = Some (Failed e o') -> (ok o = OPoints -> a <> ACell) -> wf o').
-      { intros E Ha. injection E as E. pose proof (add_data_wf o id a k v W Ha HS) as X. rewrite E in X. exact X. }
+      assert (G : Some (add_data fl o id a k v) = Some (Failed e o') -> (ok o = OPoints -> a <> ACell) -> wf o').
+      { intros E Ha. injection E as E. pose proof (add_data_wf fl o id a k v W Ha HS) as X. rewrite E in X. exact X. }
       destruct (ok o) eqn:Ek; destruct a; try discriminate; apply G; auto; intros; discriminate.
     + simpl in S. injection S as S. apply masked_copy_failed in S. subst. exact W.
     + simpl in S. destruct (reopen o order); discriminate.
@@ -1498,7 +1510,7 @@ Proof.
       eapply update_kid_Forall; [|exact U|exact HT].
       intros k0 k0' _ _ Hk. cbv beta. destruct (format_length _ _ _ v) as [v'|]; [|discriminate].
       intros E; injection E as <-. exact Hk.
-    + assert (G : Some (add_data o id a k v) = Some (Done o') -> no_text_kids o').
+    + assert (G : Some (add_data repaired o id a k v) = Some (Done o') -> no_text_kids o').
       { intros E; injection E as E. unfold add_data in E. simpl in HP.
         destruct v as [v|]; [destruct (format_length _ _ _ v); [|discriminate]|]; injection E as <-;
           unfold no_text_kids; simpl; apply Forall_app; (split; [exact HT|constructor; [exact HP|constructor]]). }
@@ -1518,10 +1530,8 @@ Proof.
       * apply remove_cells_failed in S; auto; [subst; exact HT|apply wf_kids_len_c; exact W].
       * apply remove_cells_failed in S; auto; [subst; exact HT|apply wf_kids_len_c; exact W].
     + injection S as S. apply set_values_failed in S. subst. exact HT.
-    + assert (G : Some (add_data o id a k v) = Some (Failed e o') -> no_text_kids o').
-      { intros E; injection E as E. unfold add_data in E. simpl in HP.
-        destruct v as [v|]; [destruct (format_length _ _ _ v); [discriminate|]|discriminate]. injection E as _ <-.
-        unfold no_text_kids; simpl; apply Forall_app; (split; [exact HT|constructor; [exact HP|constructor]]). }
+    + assert (G : Some (add_data repaired o id a k v) = Some (Failed e o') -> no_text_kids o').
+      { intros E; injection E as E. apply add_data_failed_rollback in E; [subst; exact HT|reflexivity]. }
       destruct (ok o); destruct a; try discriminate; apply G; exact S.
     + injection S as S. apply masked_copy_failed in S. subst. exact HT.
     + destruct (reopen o order); discriminate.
